@@ -269,6 +269,23 @@ ADD3 = {
 for _id, _t in ADD3.items():
     P[_id]["text"] += " " + _t
 
+ADD4 = {
+ "C01": "A mutex of the shared service object that is taken without a deferred release is released on every way out of its critical section, including a panic the connection's recover swallows (shared with C09; rule lock-released-on-every-exit).",
+ "C02": "No channel the unrecovered receive loop sends on (the socket wake-up, the knock queue) is closed anywhere in the listener (a send on a closed channel panics also inside a select with default; rule no-send-on-closable-channel).",
+ "C03": "Goroutines started in loops of the listeners and the server read no variable the loop assigns again (shared with C08; rule goroutine-own-variables); memory handed back for reuse (sync.Pool.Put, directly, deferred or through a release helper; the bytes of a long-lived buffer that is reset) is not reachable from what a function returns, sends, hands to a goroutine or stores in a longer-lived object (rule released-memory-not-retained).",
+ "C04": "LDAP's request loop emits its event on every path to the next iteration (one-event-per-command for ldapService.handle).",
+ "C05": "The pushers queue no bytes that still belong to a buffer they reset for the next event (rule released-memory-not-retained over pushers and event).",
+ "C09": "A datagram pseudo-connection reports the end of its stream by what is left of its buffer (length zero, or a read offset that reached the length, directly or through a flag only set from such a test; rule datagram-end-reported).",
+ "C13": "No refusal that precedes the certificate callback in the vendored readClientHello depends on a ClientHello field other than the offered version and the renegotiation extension (rule refusals-before-callback).",
+ "C14": "A pooled header is not captured by the port handler goroutine (rule released-memory-not-retained over listener/canary); a data octet added outside the pair loop of a checksum routine is shifted to the high byte (rule checksum-odd-octet-high).",
+ "C15": "The dispatcher's peek connection keeps its own copy of what it peeked (shared with C08; rule peek-replay) and no recycled buffer stays reachable behind a returned connection (rule released-memory-not-retained over server and services).",
+ "C17": "The reply buffer handed to the HTTP writer does not point into a pooled or reset encoder (rule released-memory-not-retained over services/ipp and services/decoder).",
+ "C19": "No loop of the server walks a list (a field) that it assigns inside its body (rule ranged-list-untouched).",
+ "C20": "Checksum routines of the raw listener treat the last octet of an odd-length message as the high byte (rule checksum-odd-octet-high).",
+}
+for _id, _t in ADD4.items():
+    P[_id]["text"] += " " + _t
+
 PENDING = {
 }
 
